@@ -7,9 +7,24 @@ has emitted; dropping a message is simply never delivering it). -/
 namespace P2PVerif.C06
 open P2PVerif P2PVerif.P2PKE
 
+/- ORIGINAL STATEMENT (false for a `Sess` value no code path can produce: one with `hs > 8`; the data branch of
+   `deliver` sets `hs := 8`):
+     theorem hs_monotone (s : Sess) (w : Wire) (now : Nat) : s.hs ≤ (s.deliver w now).1.hs
+   counterexample (checked with #eval): s = { isInit := true, key := 0, eph := 0, hs := 9, expiresAt := 100 },
+     w = .data 0 0 ⟨0, 0, .bogus⟩ .r2i 5 [], now = 1: s.hs = 9, (s.deliver w now).1.hs = 8.
+   Refined with the hypothesis `s.hs ≤ 8`, which every session the code produces satisfies: `hs_range` below. -/
 /-- ⊢ sessions never regress: no message of any kind lowers the handshake index. -/
-theorem hs_monotone (s : Sess) (w : Wire) (now : Nat) : s.hs ≤ (s.deliver w now).1.hs :=
-  P2PKE.hs_monotone s w now
+theorem hs_monotone (s : Sess) (w : Wire) (now : Nat) (h8 : s.hs ≤ 8) : s.hs ≤ (s.deliver w now).1.hs :=
+  P2PKE.hs_monotone s w now h8
+
+/-- ⊢ the handshake index only takes the values the code uses (so `hs ≤ 8` always holds): true of a new session
+    and preserved by every `deliver` (of any term) and every `send`. -/
+theorem hs_range :
+    (∀ isInit key eph now ra, HsOk (Sess.new isInit key eph now ra).hs) ∧
+    (∀ (s : Sess) (w : Wire) (now : Nat), HsOk s.hs → HsOk (s.deliver w now).1.hs) ∧
+    (∀ (s : Sess) (p : Bytes) (now : Nat), HsOk s.hs → HsOk (s.send p now).1.hs) ∧
+    (∀ n, HsOk n → n ≤ 8) :=
+  ⟨P2PKE.new_hsOk, P2PKE.deliver_hsOk, P2PKE.send_hsOk, fun _ h => h.le⟩
 
 /-- ⊢ and never fail permanently on their own traffic: a genuine message that is rejected leaves the session
     exactly as it was. -/
@@ -51,6 +66,6 @@ theorem completion (kI kR tI tR ra : Nat) (acts : List PAct) (now : Nat) (p q : 
 -- non-vacuity: the state "initiator completed by data, RespDone lost" is reachable and completes
 example :
     let P := (Pair.init 1 2 5 6 1000).run [.toR 0 7, .toI 1 8, .toR 2 9, .sendR [42] 10, .toI 4 11]
-    (P.i.hs, P.i.nonce, P.r.hs) = (8, 16, 3) := by decide
+    (P.i.hs, P.i.nonce, P.r.hs) = (8, 16, 3) := by decide +kernel  -- plain `decide` hits maxRecDepth (replay ring is an Array)
 
 end P2PVerif.C06
